@@ -279,8 +279,13 @@ def check_C05(ctx):
         st = ctx.harness_json(["fx", "-in", path, "-out", outp])
         if st["cases"] != n and st["mismatches"] == 0:
             raise ToolError("fx replayed %d of %d cases" % (st["cases"], n))
-        for e in read_lines(outp + ".000.ndjson")[:40]:
+        for e in read_lines(outp + ".000.ndjson")[:60]:
             kind = "leak" if e["leak"] else ("hung" if e["hung"] else ("panic" if e["panic"] else "output"))
+            if e.get("kind") == "divergence":
+                ctx.divergence("C05 forexpand output", "ForExpand on token classes %s: the model gives %s, the code %s (well terminated, no leak)" % ([x["t"] for x in e["in"]], e["want"], e["got"]))
+                continue
+            if kind == "output":
+                kind = "stream not terminated by exactly one eof/err"
             sig = "C05 forexpand %s" % kind
             ctx.violation(sig, "ForExpand on token classes %s: expected %s, got %s (leak=%d %s hung=%d panic=%s)" % (
                 [x["t"] for x in e["in"]], e["want"], e["got"], e["leak"], e["frame"], e["hung"], e["panic"]), dict(kind="fx", case=dict(**{"in": e["in"], "out": [
@@ -294,8 +299,11 @@ def check_C05(ctx):
     st = ctx.harness_json(["lx", "-in", path, "-out", outp])
     if st["cases"] != n and st["mismatches"] == 0:
         raise ToolError("lx replayed %d of %d cases" % (st["cases"], n))
-    for e in read_lines(outp + ".000.ndjson")[:40]:
-        kind = "leak" if e["leak"] else ("hung" if e["hung"] else ("panic" if e["panic"] else "output"))
+    for e in read_lines(outp + ".000.ndjson")[:60]:
+        kind = "leak" if e["leak"] else ("hung" if e["hung"] else ("panic" if e["panic"] else "stream not terminated by exactly one eof/err"))
+        if e.get("kind") == "divergence":
+            ctx.divergence("C05 lexer output", "lexer on runes %s: the model gives %s, the code %s (well terminated, no leak)" % (e["in"], e["want"], e["got"]))
+            continue
         ctx.violation("C05 lexer %s" % kind, "lexer on runes %s: expected %s, got %s (leak=%d %s hung=%d panic=%s)" % (e["in"], e["want"], e["got"], e["leak"], e["frame"], e["hung"], e["panic"]),
                       dict(kind="lx", case=dict(**{"in": e["in"], "out": [(w.split(":", 1) if ":" in w else [w, ""]) for w in e["want"]]})))
     ctx.notes["lexer_cases_replayed"] = n
@@ -307,7 +315,11 @@ def check_C05(ctx):
     st = ctx.harness_json(["scan", "-in", path, "-out", outp])
     if st["cases"] != n and st["mismatches"] == 0:
         raise ToolError("scan replayed %d of %d cases" % (st["cases"], n))
-    for e in read_lines(outp + ".000.ndjson")[:20]:
+    for e in read_lines(outp + ".000.ndjson")[:60]:
+        if e.get("kind") == "divergence":
+            ctx.divergence("C05 scanner output", "symbol scanner on %s: the model gives %s for=%s err=%s, the code %s for=%s err=%s" % (
+                [x["t"] for x in e["in"]], e["want"], e["wantfor"], e["wanterr"], e["got"], e["gotfor"], e["goterr"]))
+            continue
         ctx.violation("C05 scanner %s" % ("panic" if e["panic"] else "output"), "symbol scanner on %s: expected %s for=%s err=%s, got %s for=%s err=%s %s" % (
             [x["t"] for x in e["in"]], e["want"], e["wantfor"], e["wanterr"], e["got"], e["gotfor"], e["goterr"], e["panic"]), dict(kind="scan", case=e["case"]))
     ctx.notes["scanner_cases_replayed"] = n
@@ -318,7 +330,10 @@ def check_C05(ctx):
     st = ctx.harness_json(["parse", "-in", path, "-out", outp])
     if st["cases"] != n and st["mismatches"] == 0:
         raise ToolError("parse replayed %d of %d cases" % (st["cases"], n))
-    for e in read_lines(outp + ".000.ndjson")[:20]:
+    for e in read_lines(outp + ".000.ndjson")[:60]:
+        if e.get("kind") == "divergence":
+            ctx.divergence("C05 parser output", "parser on %s: the model gives %s err=%s, the code %s err=%s" % ([x["v"] or x["t"] for x in e["in"]], e["want"], e["wanterr"], e["got"], e["goterr"]))
+            continue
         ctx.violation("C05 parser %s" % ("panic" if e["panic"] else "output"), "parser on %s: expected %s err=%s, got %s err=%s %s" % (
             [x["v"] or x["t"] for x in e["in"]], e["want"], e["wanterr"], e["got"], e["goterr"], e["panic"]), dict(kind="parse", case=e["case"]))
     ctx.notes["parser_cases_replayed"] = n
@@ -478,8 +493,18 @@ def check_C10(ctx):
     if stl["cases"] != ncases and stl["mismatches"] == 0:
         raise ToolError("loader replayed %d of %d cases" % (stl["cases"], ncases))
     ctx.notes["spec_model"] = "Loader.tla: %d line sequences; Sound holds; all replayed through ParseLoadFile (reader stricter than the model on %d)" % (ncases, stl["reader_stricter_than_model"])
-    for e in read_lines(outp + ".000.ndjson")[:15]:
-        kind = "panic" if e["panic"] else ("accepts what cannot be represented" if e["wanterr"] else "result differs")
+    ctx.notes["loader_model_divergences"] = stl["divergences"]
+    lshard = outp + ".load.000.ndjson"
+    if os.path.exists(lshard) and os.path.getsize(lshard) > 0:
+        # reads the model does not predict: the property itself decides (ToolTrace!CheckLoad on the real result)
+        lrej, _ = validate_asm(ctx, [lshard], "C10", module="ToolTrace")
+        reproduce_asm(ctx, "C10", lrej, replay_cmd="rt-replay", sigfn=tool_sig, module="ToolTrace")
+    for e in read_lines(outp + ".000.ndjson")[:40]:
+        kind = "panic" if e["panic"] else ("accepts what the model refuses" if e["wanterr"] else "result differs")
+        if e.get("kind") == "divergence":
+            ctx.divergence("C10 loader model %s dialect=%s" % (kind, e["d"]), "load file %r (dialect %s): model %s, real reader %s" % (
+                e["text"], e["d"], "error" if e["wanterr"] else (e["want"], e["wantstart"]), "error" if e["goterr"] else (e["got"], e["gotstart"])))
+            continue
         ctx.violation("C10 loader model %s dialect=%s" % (kind, e["d"]), "load file %r (dialect %s): model %s, real reader %s" % (
             e["text"], e["d"], "error" if e["wanterr"] else (e["want"], e["wantstart"]), "error" if e["goterr"] else (e["got"], e["gotstart"])), dict(kind="loader", case=e["case"]))
     ctx.sample(read_line(path, min(ncases, 30000)))
